@@ -69,7 +69,8 @@ func propC06(w *World, r *Report) {
 func propC07(w *World, r *Report) {
 	e := NewEffects(w)
 	runDet(w, r, e, "C07")
-	entries := mustFuncs(w, r, detEntries["C07"]...)
+	// the determinism clause also covers the choice of lookups (NewLayouter, FindLookups); safety and termination are about applying them
+	entries := mustFuncs(w, r, "(*opentype/gtab.Context).Apply", "(*sfnt.Layouter).Layout", "opentype/gtab.NewContext")
 	r.Rule("panicreach: every explicit panic, unchecked type assertion and call of a function value taken from a map that is reachable from Context.Apply / Layouter.Layout is the default of a type switch over a closed set (all implementers, or all types ever stored into the switched field), or a reviewed entry whose side condition is re-checked (extension subtables are resolved by the reader; unimplemented positioning data is outside the property's domain)")
 	r.Conds["extension-resolved"] = condExtensionResolved(w)
 	RunPanicReach(w, r, "panicreach", entries, srcFuncsReachable(w, entries))
